@@ -161,7 +161,7 @@ func GetParamPassedIn(
 		return "", fmt.Errorf("parameter '%s' does not have any annotations", paramName)
 	}
 
-	paramAttrib := paramAnnotations.FindFirstByValue(paramName)
+	paramAttrib := paramAnnotations.FindFirstParameterBinding(paramName)
 	if paramAttrib == nil {
 		return definitions.PassedInHeader,
 			NewInvalidAnnotationError(
@@ -198,7 +198,7 @@ func GetParameterSchemaName(
 	paramName string,
 	paramAnnotations *annotations.AnnotationHolder,
 ) (string, error) {
-	paramAttrib := paramAnnotations.FindFirstByValue(paramName)
+	paramAttrib := paramAnnotations.FindFirstParameterBinding(paramName)
 	if paramAttrib == nil {
 		return "", fmt.Errorf("parameter '%s' does not have a matching documentation attribute", paramName)
 	}
@@ -246,7 +246,7 @@ func GetParamValidator(
 	passedIn definitions.ParamPassedIn,
 	isPointerParam bool,
 ) (string, error) {
-	paramAttrib := paramAnnotations.FindFirstByValue(paramName)
+	paramAttrib := paramAnnotations.FindFirstParameterBinding(paramName)
 	if paramAttrib == nil {
 		return "", fmt.Errorf("parameter '%s' does not have a matching documentation attribute", paramName)
 	}
